@@ -96,8 +96,18 @@ def tilesB (d : Nat) : Bool :=
     (if i + 1 < n.toNat then decide (chunk_end_it D i = chunk_begin_it D ((i + 1 : Nat) : Int))
      else decide (chunk_end_it D i = D)))
 
-/-- the arithmetic side condition under which the chunks of the CURRENT code tile the range -/
-def tileCond (d : Nat) : Bool := decide (d < 160) || decide (31 ≤ d / 32 + d % 32)
+/-! ### LEGACY: the chunk arithmetic of the parallel overload BEFORE fix 64fd49b
+    Transcribed BY HAND from the pre-fix code (not generated, NOT the current code), kept only so that
+    the history of the finding (DESIGN §8 #1) stays machine-checked — see the "history" section of
+    Props/C17.lean:
+        chunk_size = (distance + num_chunks) / num_chunks;
+        chunk_begin_it = begin_it + (chunk_size * index);
+        chunk_end_it = index < (num_chunks - 1) ? chunk_begin_it + chunk_size : end_it;          -/
+
+def chunkSizeLegacy (distance : Int) : Int := Int.tdiv (distance + num_chunks distance) (num_chunks distance)
+def chunkBeginLegacy (distance index : Int) : Int := chunkSizeLegacy distance * index
+def chunkEndLegacy (distance index : Int) : Int :=
+  if index < num_chunks distance - 1 then chunkBeginLegacy distance index + chunkSizeLegacy distance else distance
 
 /-! ### reference semantics: the first offset in `[b, b+len)` satisfying `p` -/
 
